@@ -12,7 +12,10 @@ Import ListNotations.
 Record c03out := {
   k_kind : N;
   k_n : N;                      (* kind 5: the --cols limit *)
-  k_runs : list (Z * bytes)     (* per tuning variant: exit status, stdout *)
+  k_runs : list (Z * bytes);    (* per tuning variant: exit status, stdout *)
+  k_strict : bool;              (* a case that ONLY compares the snapshot texts byte for byte (see snaps_same) *)
+  k_snaps : list bytes          (* per tuning variant: the snapshot text of the same command without --csv (standard
+                                   output when piped), without its last line (reader status: bytes, rate, file counters) *)
 }.
 Definition run (code : Z) (out : string) : Z * bytes := (code, unhex out).
 
@@ -111,10 +114,67 @@ Definition spark_trim_ok (n : nat) (t : table) (rows : list (list bytes)) : bool
   | _ => false
   end.
 
+(* ---- snapshot output (what the command prints when its output is piped) ---- *)
+Fixpoint split_nl (cur : bytes) (s : bytes) : list bytes :=
+  match s with
+  | [] => [rev cur]
+  | b :: r => if N.eqb b 10 then rev cur :: split_nl [] r else split_nl (b :: cur) r
+  end.
+Fixpoint ltrim_sp (s : bytes) : bytes := match s with 32%N :: r => ltrim_sp r | _ => s end.
+Definition rtrim_sp (s : bytes) : bytes := rev (ltrim_sp (rev s)).
+(* the text after the last space of a (right-trimmed) line, and what precedes it, right-trimmed *)
+Fixpoint take_token (racc : bytes) (rs : bytes) : bytes * bytes :=
+  match rs with
+  | [] => (racc, [])
+  | b :: r => if N.eqb b 32 then (racc, rtrim_sp (rev rs)) else take_token (b :: racc) r
+  end.
+Definition key_count (line : bytes) : bytes * bytes :=
+  let '(tok, key) := take_token [] (rev (rtrim_sp line)) in (key, tok).
+(* The renderers' layout widths (histogram key column, table column widths, bar-graph key column) only grow from
+   frame to frame, so the padding of the final snapshot depends on what an intermediate refresh displayed
+   (recorded finding C03-snapshot-padding-history: a refresh that showed a longer key / header leaves wider
+   columns). The snapshot texts of the variants are therefore compared with every run of spaces read as one
+   space and trailing spaces dropped; cases with k_strict = true compare them byte for byte and nothing else -
+   they exist only for variants with intermediate refreshes and carry the finding's tag. *)
+Fixpoint squash (prev_sp : bool) (s : bytes) : bytes :=
+  match s with
+  | [] => []
+  | b :: r => if N.eqb b 32 then (if prev_sp then squash true r else 32%N :: squash true r)
+              else b :: squash false r
+  end.
+Definition norm_snap (s : bytes) : list bytes := map (fun l => rtrim_sp (squash false l)) (split_nl [] s).
+Definition snaps_same (strict : bool) (l : list bytes) : bool :=
+  match l with
+  | [] => true
+  | s0 :: r => if strict then forallb (bytes_eqb s0) r
+               else forallb (fun s1 => list_eqb bytes_eqb (norm_snap s0) (norm_snap s1)) r
+  end.
+Definition no_commas (s : bytes) : bytes := filter (fun b => negb (N.eqb b 44)) s.
+Fixpoint before_matched (ls : list bytes) : list bytes :=
+  match ls with
+  | [] => []
+  | l :: r => if starts_with (of_str "Matched:") l then [] else l :: before_matched r
+  end.
+(* histo: the rows above the summary line are `key  count`, one per displayed group: each displayed count is
+   the aggregated count of that key (thousands separators removed), keys are distinct, and the expected
+   number of rows is displayed.  Which rows, and their order, is the sorter's business (C13); layout is C14's. *)
+Definition histo_snap_ok (c : counter) (n : nat) (snap : bytes) : bool :=
+  let rows := filter (fun l => negb (Nat.eqb (List.length (rtrim_sp l)) 0)) (before_matched (split_nl [] snap)) in
+  let kcs := map key_count rows in
+  (* default --atleast 0: a group whose total is negative is not displayed; with the default value sort the
+     non-negative totals come first, so min(n, number of non-negative totals) rows are displayed *)
+  (List.length kcs =? Nat.min n (List.length (filter (fun kv => (0 <=? snd kv)%Z) (c_items c))))%nat &&
+  nodupb (map fst kcs) &&
+  forallb (fun kc => match afind (fst kc) (c_items c) with
+                     | Some z => bytes_eqb (no_commas (snd kc)) (zs z)
+                     | None => false
+                     end) kcs.
+
 Definition C03_check (i : pin) (o : c03out) : bool :=
   let r := ref_of i in
   let keys := map e_key (Extract.s_matches r) in
-  negb (s_panic r) && all_same (k_runs o) &&
+  if k_strict o then snaps_same true (k_snaps o) else
+  negb (s_panic r) && all_same (k_runs o) && snaps_same false (k_snaps o) &&
   match k_runs o with
   | (code, out) :: _ =>
       let nread := N.to_nat (errs_of (i_srcs i)) in
@@ -122,7 +182,8 @@ Definition C03_check (i : pin) (o : c03out) : bool :=
       match k_kind o with
       | 0%N => let c := c_run keys in
                (code =? exit_code nread (N.to_nat (c_errors c)) matched)%Z &&
-               match csv_read out with Some rows => counter_rows_ok c rows | None => false end
+               match csv_read out with Some rows => counter_rows_ok c rows | None => false end &&
+               match k_snaps o with snap :: _ => histo_snap_ok c (N.to_nat (k_n o)) snap | [] => true end
       | 1%N => let t := t_run 0%N keys in
                (code =? exit_code nread (N.to_nat (t_errors t)) matched)%Z &&
                match csv_read out with Some rows => rows_eq rows (table_rows t) | None => false end
